@@ -45,8 +45,21 @@ def specCmp (op : CmpOp) (a b : Int) : Bool :=
   | .lt => decide (a < b) | .le => decide (a ≤ b) | .gt => decide (a > b) | .ge => decide (a ≥ b)
   | .eq => decide (a = b) | .ne => decide (a ≠ b)
 
-/-- decimal text of an integer -/
+/-- decimal text of an integer (Lean's own conversion; the driver's oracle) -/
 def decimal (x : Int) : String := toString x
+
+/-- decimal digits of a natural number, most significant first, in front of `acc`; the recursion
+stops at 0, `fuel` only has to be at least the number of digits (the value itself is plenty) -/
+def natDigits : Nat → Nat → List Char → List Char
+  | 0, _, acc => acc
+  | fuel+1, n, acc => if n = 0 then acc else natDigits fuel (n / 10) (Char.ofNat (n % 10 + 48) :: acc)
+
+/-- the decimal text the property speaks of, defined from first principles: optional `-`, then the
+digits of the magnitude (`0` for zero).  The driver checks on every `dec` line that it agrees with `decimal`. -/
+def decimalText (x : Int) : String :=
+  let n := x.natAbs
+  let ds := if n = 0 then ['0'] else natDigits n n []
+  String.ofList (if x < 0 then '-' :: ds else ds)
 
 /-- `numeric_limits<wide_integer<Digits, _>>`: bounds follow `Digits`, not the storage width -/
 def limMax (digits : Nat) : Int := 2^digits - 1
